@@ -19,6 +19,8 @@ class Capture:
     """records every numpy.random.normal call made while active (and the equivalent spellings
     numpy.random.standard_normal(n) / numpy.random.randn(n), recorded as normal(0, 1, n))"""
 
+    paused = False     # while True the draws pass through unrecorded (simulations of OTHER objects)
+
     def __enter__(self):
         self.calls = []
         self._orig = np.random.normal
@@ -27,17 +29,23 @@ class Capture:
 
         def recording(*a, **k):
             out = self._orig(*a, **k)
+            if self.paused:
+                return out
             args = tuple(a) + tuple(k[x] for x in ("loc", "scale", "size")[len(a):] if x in k)
             self.calls.append((args, np.array(out, dtype=float, copy=True)))
             return out
 
         def recording_sn(size=None, *a, **k):
             out = self._orig_sn(size, *a, **k)
+            if self.paused:
+                return out
             self.calls.append(((0, 1, size), np.array(out, dtype=float, copy=True)))
             return out
 
         def recording_rn(*dims):
             out = self._orig_rn(*dims)
+            if self.paused:
+                return out
             self.calls.append(((0, 1, dims[0] if len(dims) == 1 else dims),
                                np.array(out, dtype=float, copy=True)))
             return out
@@ -53,12 +61,107 @@ class Capture:
         return False
 
 
+BYSTANDERS = ["figure-fit-savefig", "figure-fit-show", "figure-function", "other-quantity",
+              "other-quantity-display", "decorated", "decorated-raises", "print-other"]
+
+
+class Bystanders:
+    """things done to other objects during a history (Monte Carlo draws made here are not recorded)"""
+
+    def __init__(self, q, srng):
+        import qexpy.settings.settings as sts
+        self.q, self.rng, self.sts = q, srng, sts
+        self.calls = 0
+
+        # a user's function under a temporary sample size, DEFINED NOW (at the start of the history,
+        # under the global size of that moment) and called later, when the configuration may differ
+        @sts.use_mc_sample_size(77)
+        def under_temporary_size(raises):
+            m = q.Measurement(2.0, 0.3)
+            r = q.exp(m)
+            r.error_method = q.ErrorMethod.MONTE_CARLO
+            _ = r.value, r.error
+            if raises:
+                raise RuntimeError("inside the decorated function")
+            return r.mc.samples().size
+        self.decorated = under_temporary_size
+
+    def run(self, kind):
+        q = self.q
+        self.calls += 1
+        if kind.startswith("figure"):
+            import io
+            import qexpy.plotting as qplt
+            import matplotlib.pyplot as plt
+            try:
+                if kind == "figure-function":
+                    a = q.Measurement(2.0, 0.2)
+                    fig = qplt.plot(lambda x: a * x + 1, xrange=(0, 1))
+                    fig.show()
+                else:
+                    xs = [1, 2, 3, 4, 5, 6]
+                    ys = [2.1 + 0.01 * self.calls, 3.9, 6.2, 7.8, 10.1, 12.2]
+                    fig = qplt.plot(xs, ys, yerr=0.2)
+                    fig.fit(model=q.FitModel.LINEAR)
+                    if kind == "figure-fit-savefig":
+                        fig.savefig(io.BytesIO(), format="png")
+                    else:
+                        fig.show()
+            finally:
+                plt.close("all")
+        elif kind.startswith("other-quantity"):
+            o = q.exp(q.Measurement(0.3, 0.5))
+            o.error_method = q.ErrorMethod.MONTE_CARLO
+            o.mc.sample_size = 33
+            o.mc.use_mode_with_confidence(0.5)
+            o.mc.set_xrange(0.5, 3.0)
+            _ = o.value, o.error
+            o.mc.use_custom_value_and_error(1.0, 0.5)
+            _ = o.value
+            if kind.endswith("display"):
+                import matplotlib.pyplot as plt
+                try:
+                    o.mc.show_histogram(bins=15)
+                finally:
+                    plt.close("all")
+        elif kind.startswith("decorated"):
+            try:
+                self.decorated(kind.endswith("raises"))
+            except RuntimeError:
+                pass
+        elif kind == "print-other":
+            o = q.Measurement(3.0, 0.4) * q.Measurement(2.0, 0.5)
+            o.error_method = q.ErrorMethod.MONTE_CARLO
+            _ = str(o), repr(o)
+        else:
+            raise KeyError(kind)
+
+
 def reset(q, global_size=None):
     q.reset_default_configuration()
+    # the plotting sub-package is imported the way a script imports it: at the top, under the default
+    # configuration (whatever it evaluates at import time -- decorators with arguments -- sees the
+    # defaults, in the check run as in a replay in a new interpreter)
+    import sys
+    if "qexpy.plotting" not in sys.modules:
+        import qexpy.plotting  # noqa: F401
     q.reset_correlations()
     q.clear_unit_definitions()
     if global_size is not None:
-        q.set_monte_carlo_sample_size(global_size)
+        set_global(q, global_size)
+
+
+def global_route(n):
+    """both routes to the global sample size are used: the function and the settings attribute
+    (chosen by the parity of the size, so that a replay takes the same route)"""
+    return "attribute" if int(n) % 2 else "function"
+
+
+def set_global(q, n):
+    if global_route(n) == "attribute":
+        q.get_settings().monte_carlo_sample_size = n
+    else:
+        q.set_monte_carlo_sample_size(n)
 
 
 def seed_numpy(rng):
